@@ -90,6 +90,34 @@ def pointwise(check, proj):
     check.floor("flux kernels", n, 11)
 
 
+def _self_calls_in_order(f):
+    """[(method name, under a condition or in a loop?)] of self.m() calls in source order"""
+    sn = f.params[0]
+    out = []
+
+    def expr(e, cond):
+        for n in ast.walk(e):
+            if isinstance(n, ast.Call) and isinstance(n.func, ast.Attribute) and isinstance(n.func.value, ast.Name) and n.func.value.id == sn:
+                out.append((n.func.attr, cond))
+
+    def block(stmts, cond):
+        for st in stmts:
+            if isinstance(st, ast.If):
+                expr(st.test, cond)
+                block(st.body, True)
+                block(st.orelse, True)
+            elif isinstance(st, (ast.For, ast.While)):
+                expr(st.iter if isinstance(st, ast.For) else st.test, cond)
+                block(st.body, True)
+                block(st.orelse, True)
+            elif isinstance(st, (ast.With, ast.Try)):
+                block(st.body, cond)
+            else:
+                expr(st, cond)
+    block(f.node.body, False)
+    return out
+
+
 def flux_single(check, proj):
     for q in ("modeldisc.fvm1d", "modeldisc.fvm2dcart"):
         c = proj.cls(q)
@@ -98,18 +126,19 @@ def flux_single(check, proj):
         stores = [n for n in ast.walk(cf.node) if isinstance(n, ast.Assign) and any(isinstance(t, ast.Attribute) and t.attr == "flux" for t in n.targets)]
         ok = len(calls) == 1 and len(stores) == 1 and stores[0].value is calls[0]
         check.record("FLUX-SINGLE", cf.qualname, ok, "one numflux call on (pL, pR) whose result is the face flux array", cf.loc(), key="single")
-        # calc_res reads only self.flux (and geometry)
-        cr = proj.resolve(c, "calc_res")
-        sn = cr.params[0]
-        reads = {n.attr for n in ast.walk(cr.node) if isinstance(n, ast.Attribute) and isinstance(n.value, ast.Name) and n.value.id == sn and isinstance(n.ctx, ast.Load)}
-        extra = reads - {"flux", "mesh", "neq", "nelem", "residual", "qdata"}
-        check.record("FLUX-SINGLE", cr.qualname, not extra, "calc_res reads only the flux array and the geometry" if not extra else "calc_res also reads %s" % sorted(extra), cr.loc(), key="res-reads")
-        # rhs order: calc_flux before calc_res, each once
+        # rhs: on every path the face states are completed (interp_face, then calc_bc) before the one
+        # flux evaluation, and the balance (calc_res) follows it; each of the four exactly once and
+        # unconditionally.  (What calc_res reads is decided by TELESCOPE: a second flux-like input
+        # would not telescope.)  Calls are taken in source order, conditionals noted.
         rhs = proj.resolve(c, "rhs")
-        order = [n.func.attr for n in ast.walk(rhs.node) if isinstance(n, ast.Call) and isinstance(n.func, ast.Attribute) and isinstance(n.func.value, ast.Name) and n.func.value.id == rhs.params[0]]
-        want = ["cons2prim", "calc_grad", "calc_bc_grad", "interp_face", "calc_bc", "calc_flux", "calc_res"]
-        got = [x for x in order if x in want]
-        check.record("FLUX-SINGLE", rhs.qualname + " [%s]" % c.name, got == want, "stages run once each in the order %s" % " -> ".join(want) if got == want else "stage order is %s" % got, rhs.loc(), key="order")
+        seq = _self_calls_in_order(rhs)
+        need = ["interp_face", "calc_bc", "calc_flux", "calc_res"]
+        got = [(nm, cond) for nm, cond in seq if nm in need]
+        names = [nm for nm, _ in got]
+        ok = names == need and not any(cond for _, cond in got)
+        check.record("FLUX-SINGLE", rhs.qualname + " [%s]" % c.name, ok,
+                     "interp_face -> calc_bc -> calc_flux -> calc_res run once each, unconditionally, in this order" if ok
+                     else "face states / flux / balance stages run as %s (expected %s once each, unconditionally)" % (["%s%s" % (nm, " (conditional)" if cond else "") for nm, cond in got], need), rhs.loc(), key="order")
 
 
 def wall_zero(check, proj):
